@@ -78,6 +78,26 @@ void h_find(void)
  * chain B, which lead on in both directions.  j is arbitrary, so every step is checked; the loop has
  * at most 32 iterations and is closed by unwinding.  (Seeded change C07-6 computes a wrong mask for
  * numbers >= 513 only.) */
+size_t vf_w_off;
+/* get: the element that embeds the root node (for every node offset), NULL exactly for an empty heap;
+ * nothing is written */
+void h_get(void)
+{
+    static struct { long pad[5]; struct cstl_bintree_node n; } E;
+    struct cstl_heap h, before;
+    const void * r;
+    VF_IN_SIZE(off);
+    VF_ASSUME(vf_w_off <= 40);
+    cstl_heap_init(&h, NULL, NULL, 0);
+    h.bt.off = vf_w_off;
+    h.bt.size = nondet_size_t();
+    h.bt.root = nondet_bool() ? &E.n : NULL;
+    before = h;
+    r = cstl_heap_get(&h);
+    VF_ASSERT(h.bt.root == NULL ? r == NULL : r == (const void *)((const char *)&E.n - vf_w_off), "get: the element embedding the root node, NULL exactly for an empty heap");
+    VF_ASSERT(h.bt.root == before.bt.root && h.bt.size == before.bt.size && h.bt.off == before.bt.off, "get: the heap is not written");
+    VF_END();
+}
 static struct cstl_bintree_node vf_P[34], vf_A[34], vf_B[34];
 size_t vf_w_j;
 void h_find_path(void)
@@ -483,7 +503,7 @@ struct vf_harness vf_harnesses[] = {
 #if defined(VF_FLS)
     { "h_fls", h_fls },
 #elif defined(VF_FIND)
-    { "h_find", h_find }, { "h_find_path", h_find_path },
+    { "h_find", h_find }, { "h_find_path", h_find_path }, { "h_get", h_get },
 #elif defined(VF_STEP)
     { "h_step", h_step },
 #elif defined(VF_B) && VF_B == 1
